@@ -132,6 +132,15 @@ type world struct {
 	ex       *parsigex.ParSigEx
 	senders  map[int]*parsigex.ParSigEx // honest sender nodes by peer index
 	peerSub  atomic.Pointer[submission]
+
+	// fault injection: a second real ParSigEx of the same node (own host id) whose stream-handler
+	// context has a very short receive timeout; harness wrappers around the REAL gater / verifier
+	// hold chosen messages until that context is done.
+	faultPeer peer.ID
+	exFault   *parsigex.ParSigEx
+	faultSub  atomic.Pointer[submission]
+	faultMode atomic.Int32 // 0 off, 1 context expires after gating / before verification, 2 expires inside the first verification
+	ctxDead   atomic.Int64 // verifications that started with a done context (evidence)
 	verCache sync.Map // verification cache: key string -> bool
 }
 
@@ -400,8 +409,60 @@ func newWorld(t *testing.T, rng *rand.Rand) (*world, error) {
 		})
 	}
 
+	// fault-injection instance
+	{
+		var kb [32]byte
+		rng.Read(kb[:])
+		id, err := p2p.PeerIDFromKey(k1.PrivKeyFromBytes(kb[:]).PubKey())
+		if err != nil {
+			w.close()
+			return nil, err
+		}
+		w.faultPeer = id
+		fGater := func(d core.Duty) bool {
+			ok := gater(d)
+			if w.faultMode.Load() == 1 {
+				// the handler context was created before the request was read with faultReceiveTimeout:
+				// after sleeping longer than that it is certainly done.
+				time.Sleep(faultReceiveTimeout + faultReceiveTimeout/2)
+			}
+
+			return ok
+		}
+		fVerify := func(ctx context.Context, p peer.ID, d core.Duty, pk core.PubKey, data core.ParSignedData) error {
+			if w.faultMode.CompareAndSwap(2, 3) {
+				<-ctx.Done() // the context ends while the set is being verified
+			}
+			if ctx.Err() != nil {
+				w.ctxDead.Add(1)
+			}
+
+			return verify(ctx, p, d, pk, data)
+		}
+		w.exFault = parsigex.NewParSigEx(w.net.Host(w.faultPeer), p2p.Send, w.shareIdx-1, w.peers, fVerify, fGater,
+			p2p.WithReceiveTimeout(faultReceiveTimeout))
+		for s := 0; s < 2; s++ {
+			src := fmt.Sprintf("peer-fault/%d", s)
+			w.exFault.Subscribe(func(_ context.Context, duty core.Duty, set core.ParSignedDataSet) error {
+				sub := w.faultSub.Load()
+				if sub == nil {
+					return nil
+				}
+				for pk, par := range set {
+					sub.add(admission{Src: src, Duty: duty, PubKey: pk, Par: par})
+				}
+
+				return nil
+			})
+		}
+	}
+
 	return w, nil
 }
+
+// faultReceiveTimeout is the receive timeout (lifetime of the stream-handler context) of the
+// fault-injection ParSigEx instance.
+const faultReceiveTimeout = 2 * time.Millisecond
 
 // sender returns a real ParSigEx for honest peer j whose Broadcast reaches only the node under test.
 func (w *world) sender(j int) *parsigex.ParSigEx {
